@@ -1004,7 +1004,7 @@ pub fn judge_pair_ex(kind: &str, idx: u64, rk: RK, pa: &Program, pb: &Program, t
 const CORE_TARGETS: usize = 4; // c (char), X, Y, s (short)
 const CORE_FORMS: usize = 16;
 const CORE_TESTS: usize = 6;
-const CORE_SPECIALS: usize = 10;
+const CORE_SPECIALS: usize = 18;
 
 pub fn core_len() -> u64 {
     (CORE_TARGETS * CORE_FORMS * CORE_TESTS + CORE_SPECIALS) as u64
@@ -1075,6 +1075,37 @@ fn core_pair(idx: u64) -> Option<(RK, Program, Program, LV)> {
                 pb.funcs.push(Func { name: "f".into(), ret: None, params: vec![], body: fbody.clone(), inline: false, interrupt: false, proto_first: false });
                 let pb = core_main(pb, vec![pre, Stmt::Block(fbody), test]);
                 return Some((RK::CallInline, pa, pb, reg));
+            }
+            10..=17 => {
+                // v = ..; f(); if (v) ..   <->   f's body in place, f inline or not, touching v or not
+                let j = k - 10;
+                let inline = j % 2 == 0;
+                let tv: LV = match (j / 2) % 4 {
+                    0 => LV::Var(0),
+                    1 => LV::X,
+                    2 => LV::Y,
+                    _ => LV::Var(3),
+                };
+                let touches = j >= 4 || matches!(tv, LV::Var(3));
+                let fbody: Vec<Stmt> = if touches {
+                    vec![Stmt::Expr(Expr::Assign(tv.clone(), Box::new(Expr::Num(0)))), Stmt::Expr(Expr::Assign(LV::Var(1), Box::new(Expr::Num(5))))]
+                } else {
+                    vec![incr(1)]
+                };
+                let pre = if j % 3 == 0 {
+                    Stmt::Expr(Expr::Assign(tv.clone(), Box::new(Expr::Num(1))))
+                } else {
+                    Stmt::Expr(Expr::IncDec { lv: tv.clone(), post: true, inc: false })
+                };
+                let test = Stmt::If(Expr::Lv(tv.clone()), Box::new(set(2, 1)), Some(Box::new(set(2, 2))));
+                let mk = |body: Vec<Stmt>| {
+                    let mut q = core_base();
+                    q.funcs.push(Func { name: "f".into(), ret: None, params: vec![], body: fbody.clone(), inline, interrupt: false, proto_first: false });
+                    core_main(q, body)
+                };
+                let pa = mk(vec![pre.clone(), Stmt::Expr(Expr::Call(0, vec![])), test.clone()]);
+                let pb = mk(vec![pre, Stmt::Block(fbody.clone()), test]);
+                return Some((RK::CallInline, pa, pb, tv));
             }
             _ => {
                 // a loop with a switch whose arm continues   <->   the if chain
